@@ -20,6 +20,16 @@ Engine E3 (small-scope enumeration on the real objects), per sketch:
   and every (stream, split) pair is still enumerated and judged (the one-sided
   oracle depends on the path, not only on the state).  All streams of length
   <= 3 plus a fixed 1/257 slice are re-executed straight (no memo) and compared.
+* 'queried-before' dimension (all sketches): every public read-only query
+  (contains / estimate / cardinality / top / quantile / cdf / sample / len /
+  repr / ...) is called after construction and after every insertion, or once
+  at the end, and on both / the left / the right half right before merge().
+  Demanded: (a) for Bloom, Count-Min, HyperLogLog, TopK, Reservoir the queried
+  sketch answers exactly like the never-queried one (t-digest queries flush the
+  buffer, so there only the quantile clauses are demanded - its 'each'
+  configurations); (b) merge of queried halves == sketch of the concatenation.
+  In the state graph a query is a transition; variants whose states are the
+  very same pickles as the unqueried ones are not re-judged.
 * ``topk``: space-saving guarantees against an exact Counter on every stream
   (straight executions).
 * ``tdigest``: 21-point quantile grid non-decreasing and inside [min, max], with
@@ -27,7 +37,12 @@ Engine E3 (small-scope enumeration on the real objects), per sketch:
 * ``reservoir``: exactly min(k, n) items, a sub-multiset of the stream, for
   direct streams and for every merged split.
 * ``merkle``: ALL ordered pairs of maps over 2-6 keys x {absent, v1, v2}, trees
-  built three ways (build / update / overwrite+remove churn).
+  built three ways (build / update / overwrite+remove churn); plus construction
+  HISTORIES over 3 (quick) / 4 (thorough) keys: bulk build from every insertion
+  order of the keys, alone or followed by update-existing / remove / update-new,
+  and pure update sequences in every order - every history against every other
+  history of the same map (diff must be empty) and against two representatives
+  of every map, both directions.
 * ``wrappers``: SketchCollector / TopKCollector / QuantileEstimator fed by real
   events through a real ``Simulation`` (all event sequences, two timing shapes),
   same oracles through the wrapper's public surface.
